@@ -249,6 +249,20 @@ func regImmShift(f binaryExprFunc, i instruction, bits uint8, w expr.Width) expr
 	return f(regLoad(rs1, i, w), immShift, w)
 }
 
+// signedRem calculates remainder of signed division of e1 by e2 as defined by
+// RISC-V specification: The remainder has sign of the dividend, remainder of
+// division by zero is the dividend and remainder of overflown division is
+// zero.
+//
+// All those properties follow from definition of division in the specification
+// (which is the one of exprtools.SignedDiv) and the equation:
+//	dividend = divisor * quotient + remainder
+func signedRem(e1, e2 expr.Expr, w expr.Width) expr.Expr {
+	div := exprtools.SignedDiv(e1, e2, w)
+	multiple := expr.NewBinary(expr.Mul, div, e2, w)
+	return exprtools.Sub(e1, multiple, w)
+}
+
 func sext(e expr.Expr, signBit uint8, w expr.Width) expr.Expr {
 	return exprtools.SignExtend(e, expr.ConstFromUint(signBit), w)
 }
